@@ -25,7 +25,7 @@ func dsPoints(kind string, obj any) bool {
 
 // c18ConcurrentDuplicates: the same new request (same initiator, same transfer ID) is delivered twice at the
 // same time - a resend racing with the original - over the network path (push) or over network + transport
-// (pull). Whatever the interleaving at datastore granularity: at most one delivery is accepted, and the channel
+// (pull). Whatever the interleaving at datastore + lock granularity: at most one delivery is accepted, and the channel
 // ends exactly as after a single delivery (accessor vector), i.e. the refused duplicate left it as it was.
 func c18ConcurrentDuplicates(x *mc.Cell, pull bool, bound int, maxExec int64) {
 	name := fmt.Sprintf("c18-concurrent-duplicates/pull=%v/b%d", pull, bound)
@@ -39,6 +39,9 @@ func c18ConcurrentDuplicates(x *mc.Cell, pull bool, bound int, maxExec int64) {
 		}
 		defer n.Stop()
 		v := doubles.Voucher("T", "v")
+		n.Val["T"].Answer = func(int, doubles.VCall) (datatransfer.ValidationResult, error) {
+			return datatransfer.ValidationResult{Accepted: true, DataLimit: 1000}, nil
+		}
 		n.RecvRequest(doubles.PeerB, l2node.NewReq(7, false, pull, &v))
 		vec, err := n.Vec(chid)
 		if err != nil {
@@ -56,8 +59,11 @@ func c18ConcurrentDuplicates(x *mc.Cell, pull bool, bound int, maxExec int64) {
 			defer n.Stop()
 			v := doubles.Voucher("T", "v")
 			rq := l2node.NewReq(7, false, pull, &v)
+			n.Val["T"].Answer = func(int, doubles.VCall) (datatransfer.ValidationResult, error) {
+				return datatransfer.ValidationResult{Accepted: true, DataLimit: 1000}, nil
+			}
 			mk := n.Mark()
-			s := sched.New(dsPoints)
+			s := sched.New(dsAndLockPoints) // datastore operations and library locks
 			defer s.Close() // also on a diverged replay: parked library goroutines must be released before the world is torn down
 			var retErr [2]error
 			var returned [2]datatransfer.Response
@@ -116,6 +122,34 @@ func c18ConcurrentDuplicates(x *mc.Cell, pull bool, bound int, maxExec int64) {
 			}
 			if accepted == 1 && vec.String() != ref {
 				x.Violate("C18", fmt.Sprintf("concurrent-duplicates;channel-differs-from-single-delivery;pull=%v", pull), fmt.Sprintf("single delivery: %s\nconcurrent:      %s\n%s", ref, vec, ctx), rep)
+			}
+			if accepted == 1 {
+				// "exactly as it was" includes what the channel goes on to do: its accounting and its data limit work
+				// as after a single delivery (the refused duplicate must not have reset anything the survivor relies on)
+				n.H().OnTransferInitiated(chid)
+				mc.Wait()
+				report := func(idx int64, size uint64) error {
+					if pull {
+						_, e := n.H().OnDataQueued(chid, l2node.Root(), size, idx, true)
+						return e
+					}
+					return n.H().OnDataReceived(chid, l2node.Root(), size, idx, true)
+				}
+				e1 := report(1, 400)
+				mc.Wait()
+				e1b := report(1, 400) // replay
+				mc.Wait()
+				e2 := report(2, 700) // 1100 >= limit 1000
+				mc.Wait()
+				after, _ := n.Vec(chid)
+				total := after.Received
+				if pull {
+					total = after.Queued
+				}
+				if e1 != nil || e1b != nil || total != 1100 || e2 != datatransfer.ErrPause || !after.RPaused || after.Limit != 1000 {
+					x.Violate("C18", fmt.Sprintf("concurrent-duplicates;survivor-misbehaves-afterwards;pull=%v", pull),
+						fmt.Sprintf("after the refused duplicate the channel does not behave as after a single delivery: reports returned %v / %v / %v (want nil, nil, pause signal), total %d (want 1100), limit %d, responder paused %v; %s", e1, e1b, e2, total, after.Limit, after.RPaused, ctx), rep)
+				}
 			}
 		})
 		if pv != nil {
